@@ -6,7 +6,7 @@ EXTENDS Retrieval, TLC
 MCNodes == {"A", "R", "B"}
 MCChunks == {"c1", "c2"}
 MCHolder == [n \in MCNodes |-> IF n = "B" THEN MCChunks ELSE {}]
-MCFunds == [n \in MCNodes |-> IF n = "A" THEN 2 ELSE IF n = "R" THEN 1 ELSE 0]
+MCFunds == [n \in MCNodes |-> IF n = "A" THEN 3 ELSE IF n = "R" THEN 2 ELSE 0]
 MCRequesters == {"A", "R"}
 MCFundsRich == [n \in MCNodes |-> 6]
 AllFaults == {"noconn", "lose", "corrupt", "other", "wfail", "cifail"}
@@ -23,7 +23,7 @@ MCHolder1 == [n \in MCNodes |-> IF n = "B" THEN MCChunks1 ELSE {}]
 OnlyA == {"A"}
 TickFaults == {"lose", "corrupt"}
 LoseOnly == {"lose"}
-MCRoutesTick == {<<<<"R", "R">>, <<"B", "B">>>>, <<<<"R", "B">>>>}
+MCRoutesTick == {<<<<"R", "R">>, <<"B", "B">>>>}
 
 CallDone(k) == k \in CallIds /\ calls[k].pc = "done"
 Terminates == \A k \in 1..8 : (k \in CallIds) ~> CallDone(k)
